@@ -208,6 +208,39 @@ fn eval(name: &str, a: &[Value]) -> Value {
             }
         }
         "execute_all" => crate::exec::execute_all(&a[0]),
+        // parse a Markdown document, pretend every test passed with its expected exit code, run the update generator
+        "markdown_update" => {
+            use scrut::generators::generator::UpdateGenerator;
+            use scrut::parsers::parser::Parser;
+            let text = str_arg(&a[0]);
+            let langs: Vec<String> = a[1].as_array().unwrap().iter().map(str_arg).collect();
+            let langs: Vec<&str> = langs.iter().map(|s| s.as_str()).collect();
+            let maker = std::sync::Arc::new(scrut::expectation::ExpectationMaker::new(scrut::rules::registry::RuleRegistry::default()));
+            let parser = scrut::parsers::markdown::MarkdownParser::new(maker, &langs, None);
+            let tests = match parser.parse(&text) { Ok((_c, t)) => t, Err(e) => return json!({"parse_error": format!("{:#}", e)}) };
+            let outcomes: Vec<scrut::outcome::Outcome> = tests.iter().map(|t| scrut::outcome::Outcome {
+                location: None,
+                output: scrut::output::Output { stdout: vec![].into(), stderr: vec![].into(), exit_code: scrut::output::ExitStatus::Code(t.exit_code.unwrap_or(0)) },
+                testcase: t.clone(), format: scrut::parsers::parser::ParserType::Markdown, escaping: scrut::escaping::Escaper::Unicode, result: Ok(()),
+            }).collect();
+            let refs: Vec<&scrut::outcome::Outcome> = outcomes.iter().collect();
+            match scrut::generators::markdown::MarkdownUpdateGenerator::new(&langs).generate_update(&text, &refs) {
+                Ok(u) => json!({"updated": u, "tests": tests.len()}),
+                Err(e) => json!({"update_error": format!("{:#}", e), "tests": tests.len()}),
+            }
+        }
+        "cram_parse" => {
+            use scrut::parsers::parser::Parser;
+            let maker = std::sync::Arc::new(scrut::expectation::ExpectationMaker::new(scrut::rules::registry::RuleRegistry::default()));
+            match scrut::parsers::cram::CramParser::new(maker, 2).parse(&str_arg(&a[0])) {
+                Ok((_config, tests)) => json!({"Ok": tests.iter().map(|t| json!({
+                    "title": t.title, "shell_expression": t.shell_expression, "line_number": t.line_number, "exit_code": t.exit_code,
+                    "expectations": t.expectations.iter().map(|e| e.original_string()).collect::<Vec<_>>(),
+                    "output_stream": t.config.output_stream.as_ref().map(|o| format!("{:?}", o)), "keep_crlf": t.config.keep_crlf,
+                })).collect::<Vec<_>>()}),
+                Err(e) => json!({"Err": format!("{:#}", e)}),
+            }
+        }
         // [line, "ascii"|"unicode", probe bytes]
         "expectation_roundtrip" => {
             let maker = scrut::expectation::ExpectationMaker::new(scrut::rules::registry::RuleRegistry::default());
